@@ -515,6 +515,9 @@ impl<'p> Interp<'p> {
 						let both = self.tm.and(sge, eq);
 						let nn = self.tm.not(nonneg);
 						let ax = self.tm.or(nn, both);
+						if let Some(sol) = self.sol.as_mut() {
+							sol.axioms.insert(ax, s);
+						}
 						self.axiom(ax)?;
 					}
 				}
